@@ -219,6 +219,11 @@ def run_harness_shards(lens, shards, wd, timeout=3000):
         errp.close()
         try:
             summ = json.loads(out.strip().splitlines()[-1])
+            if p.returncode == 3 and 'hang' in summ:
+                # the code under test hung (watchdog): the scenarios finished before are in the trace; the hanging one is data
+                n = sum(1 for _ in open(outp)) if os.path.exists(outp) else 0
+                res.append((outp, dict(lines=n, hang=summ['hang'], tool_errors=[])))
+                continue
         except Exception:
             tail = open(os.path.join(wd, f'harness_{k}.err')).read()[-3000:]
             raise ToolError(f'harness shard {k} died (rc={p.returncode}): {tail}')
